@@ -45,12 +45,22 @@ theorem mpi_roundtrip (v : Nat) (hv : v < 2 ^ 65535) (rest : Octets) (sum : Nat)
   Pgp.mpi_roundtrip v hv rest sum
 
 /-- armor round trip for the four armor types the library writes, for non-empty data
-    (the empty case is finding F14) and header texts without line breaks or dash runs -/
+    (the empty case: `armor_empty_roundtrip_instances`, repair of finding F14) and header texts without line breaks or dash runs -/
 theorem armor_roundtrip (type : Nat) (ht : type = 1 ∨ type = 2 ∨ type = 5 ∨ type = 6)
     (comment : Text) (version : Option Text) (data : Octets) (hd : IsOctets data) (hne : data ≠ [])
     (hc : TextOK comment) (hv : ∀ v, version = some v → TextOK v) :
     armorDecode (armorEncode type comment version data) = (type, data) :=
   Pgp.armor_roundtrip type ht comment version data hd hne hc hv
+
+/-- the armor of an empty octet string decodes to the empty string (finding F14, repaired): instances
+    for the four armor types, without headers, with a comment, with a version line -/
+theorem armor_empty_roundtrip_instances :
+    armorDecode (armorEncode 1 [] none []) = (1, []) ∧ armorDecode (armorEncode 2 [] none []) = (2, []) ∧
+    armorDecode (armorEncode 5 [] none []) = (5, []) ∧ armorDecode (armorEncode 6 [] none []) = (6, []) ∧
+    armorDecode (armorEncode 1 "a comment".toList none []) = (1, []) ∧
+    armorDecode (armorEncode 6 "a comment".toList (some "v1".toList) []) = (6, []) :=
+  Pgp.armor_empty_roundtrip_instances
+
 
 theorem armor_rejects_bad_checksum (type : Nat) (ht : type = 1 ∨ type = 2 ∨ type = 5 ∨ type = 6)
     (comment : Text) (version : Option Text) (data : Octets) (hd : IsOctets data) (hne : data ≠ [])
